@@ -284,6 +284,72 @@ Proof.
   - rewrite Fm. apply eqn_sym. exact Hsu.
 Qed.
 
+(* ------------------------------------------------------------------ roots *)
+Fixpoint geom (a b : ps) (n : nat) : ps :=
+  match n with O => p0 | S k => (ppow_s a k + b * geom a b k)%ps end.
+
+Lemma pow_diff a b n : (ppow_s a n - ppow_s b n)%ps =p ((a - b) * geom a b n)%ps.
+Proof.
+  induction n; cbn [ppow_s geom]; [ring|].
+  transitivity ((a - b) * ppow_s a n + b * ((a - b) * geom a b n))%ps; [|ring].
+  rewrite <- IHn. ring.
+Qed.
+
+Lemma ppow_coef0_c (a : ps) c k : a O == c -> ppow_s a k O == qpown c k.
+Proof.
+  intros H; induction k; cbn [ppow_s qpown]; [reflexivity|].
+  rewrite pmul_coef0, H, IHk. reflexivity.
+Qed.
+
+Lemma geom_coef0 a b c k : a O == c -> b O == c -> geom a b (S k) O == qnat (S k) * qpown c k.
+Proof.
+  intros Ha Hb; induction k.
+  - cbn [geom ppow_s qpown]. unfold padd_s. rewrite pmul_coef0.
+    change (p1 O) with 1. change (p0 O) with 0. change (qnat 1) with 1. ring.
+  - change (geom a b (S (S k))) with (ppow_s a (S k) + b * geom a b (S k))%ps.
+    unfold padd_s. rewrite pmul_coef0, IHk, Hb, (ppow_coef0_c a c (S k) Ha).
+    cbn [qpown]. rewrite (qnat_S (S k)). ring.
+Qed.
+
+Lemma qpown_neq0 c k : ~ c == 0 -> ~ qpown c k == 0.
+Proof.
+  intros Hc; induction k; cbn [qpown]; [discriminate|].
+  intro Hz. apply Qmult_integral in Hz. destruct Hz; contradiction.
+Qed.
+
+Lemma root_unique m (a b : ps) c k :
+  ~ c == 0 -> a O == c -> b O == c ->
+  eqn m (ppow_s a (S k)) (ppow_s b (S k)) -> eqn m a b.
+Proof.
+  intros Hc Ha Hb H.
+  apply (proj2 (eqn_vge_sub _ _ _)). apply (proj1 (vge_eqn _ _)).
+  apply (cancel_unit m _ _ (geom a b (S k))).
+  - rewrite (geom_coef0 a b c k Ha Hb). intro Hz. apply Qmult_integral in Hz.
+    destruct Hz as [Hz|Hz]; [revert Hz; apply qnat_S_neq0|revert Hz; apply qpown_neq0; exact Hc].
+  - rewrite <- pow_diff. assert (Z : (p0 * geom a b (S k))%ps =p p0) by ring. rewrite Z.
+    apply (proj1 (vge_eqn _ _)). apply (proj1 (eqn_vge_sub _ _ _)). exact H.
+Qed.
+
+Theorem nthroot_compose s (np : positive) prec c r (u v : ps) :
+  wf s -> ~ coef s 0 == 0 -> (2 <= Zpos np)%Z -> (0 < prec < 2147483648)%N ->
+  qroot (find_cf s 0) np = Ok c ->
+  series_nthroot s (Zpos np) prec = Ok r ->
+  eqn (N.to_nat prec) (den s) u -> v O == c -> ppow_s v (Pos.to_nat np) =p u ->
+  eqn (N.to_nat prec) (den r) v.
+Proof.
+  intros W H Hn Hp Hq Er Hsu V0 Hv.
+  destruct (nthroot_spec s np prec c W H Hn Hp Hq) as (r' & Er' & _ & R0 & HR).
+  rewrite Er in Er'. inversion Er'; subst r'.
+  assert (Hc : ~ c == 0).
+  { intro Hz. assert (Q := qroot_ok _ _ _ Hq).
+    destruct (Pos.to_nat np) as [|k] eqn:Ek; [lia|].
+    cbn [qpown] in Q. rewrite Hz in Q. apply H.
+    rewrite <- (find_cf_coef s 0 (proj1 W)). rewrite <- Q. ring. }
+  destruct (Pos.to_nat np) as [|k] eqn:Ek; [lia|].
+  apply (root_unique _ _ _ c k Hc R0 V0).
+  rewrite HR, Hv. exact Hsu.
+Qed.
+
 (* ------------------------------------------------------------------ an instance: exp(sin x) *)
 (* the visitor's two steps chained: with ys, yc the formal sine and cosine (of x) and y the
    formal exponential of ys, the model's series(exp(sin(x)), x, prec) agrees with y below x^prec *)
